@@ -134,7 +134,7 @@ def write_replay(check_id: str, seed: int, v: dict) -> str:
 
 
 class Batch:
-    def __init__(self, check_id: str, tier: str, base_seed: int, workers: int = 16):
+    def __init__(self, check_id: str, tier: str, base_seed: int, workers: int = 8):
         self.check_id = check_id
         self.tier = tier
         self.base_seed = base_seed
